@@ -23,6 +23,31 @@ history (a copy must not share state with its original).
 Auxiliary monitors K1 (LinkedList) and K2 (OrderedSet) from vp.kmon run on every
 underlying call and localise a failure to the method that broke the
 representation.
+
+Extension (round 6), two classes the first workload did not drive:
+
+(1) ``sort_fields(key=f)`` with key functions that return the object they are
+    handed - the STORED key - itself, a tuple/list holding it, or something
+    computed from it by ordering comparisons (STORED_KEY_SORT_KEYS: identity,
+    ``(k.startswith('X-'), k)``, ``(len(k), k)``, ``k[::-1]``, itemgetter,
+    cmp_to_key, ...), on the SORT_NAMES alphabet whose spellings sort
+    differently case-sensitively and case-insensitively.  The model applies the
+    SAME function to the plain str spellings with list.sort; the library's key
+    type may fold case in ==/hash only, never in < > <= >=.  Likewise
+    sorted(d) / sorted(d.keys()) / min(d) / max(d) must order like the plain
+    spellings (observe_plain_order, part of every observation).
+(2) COPIES taken after re-orderings, by every route (COPY_HOWS): d.copy(),
+    type(d)(d), Deb822(d), Deb822Dict(d), constructor from items view / pair
+    list / plain dict, and the plain snapshots dict(d.items()), dict(d),
+    list(d.items()), list(d.keys()), list(d.values()), list(d), tuple(items).
+    Objects are observed in full (and may become the object the history goes
+    on with, also across the two classes); snapshots are compared with the
+    model at once; the object left behind is re-observed at the end (a copy
+    taken before is unaffected by later re-orderings of the other object).
+    values() is now part of every observation as well.
+Sources: ``sort_enum_cases`` (every key function x fixed start orders x 4 start
+kinds), flavours 'sortkeys' / 'copies' of ``gen_history`` (a copy follows a
+re-ordering with raised probability), and a share of the classic histories.
 """
 import functools
 import io
@@ -45,13 +70,40 @@ RULE = ('Histories = start state (empty / dict / pair list / parsed from str, by
         'self-relative; plus ALL histories of length <= 3 (quick) / <= 4 (thorough) over a fixed 18-operation '
         'alphabet from 5 start states.  A history is non-trivial when at least one operation addressed a key that '
         'was present through a spelling different from the stored one AND at least one re-order, sort or delete '
-        'succeeded.')
+        'succeeded.  Added classes: (1) sort_fields(key=f) with 17 key functions returning the key object handed '
+        'over, a tuple/list containing it, or a value derived from it by ordering comparisons only (identity, '
+        '(k.startswith("X-"), k), (len(k), k), k[::-1], itemgetter, cmp_to_key ...) on names with mixed-case '
+        'initials (b A a2 B1 X-foo x-Bar Z aa Ab and their case variants): every key function x 8 (quick) / 60 '
+        '(thorough) fixed start orders x 4 start kinds, plus seeded "sortkeys" histories (<= 12 ops, 2-9 fields) '
+        'and a quarter of the sorts of the classic histories; after every observation sorted(d), '
+        'sorted(d.keys()), min(d), max(d) are compared with the plain-str ordering of the model keys.  '
+        '(2) copies taken after re-orderings by 15 routes (d.copy(), type(d)(d), Deb822(d), Deb822Dict(d), '
+        'constructor from items view / pair list / plain dict of items / dict(d); snapshots dict(d.items()), '
+        'dict(d), list/tuple of items, list of keys / values / iteration): seeded "copies" histories in which a '
+        'copy follows a re-ordering with raised probability, the enumerated sort cases, and 40% of the copies of '
+        'the classic histories; the history continues on the copy or on the original (also across the two '
+        'classes), the other object is re-observed at the end.')
 ASSUMPTIONS = ['vp.models.cimap.CIListMap (list of pairs, ASCII lower-casing) is the reference semantics of the statement',
                'domain: ASCII field names without colon/whitespace, values that are valid Deb822 values without '
                'leading/trailing whitespace (value round-tripping itself is C02/C08)',
                'parsed start texts have case-insensitively unique field names (duplicate fields on input are outside the statement)',
                'order_before/after(k, k) with k absent may raise KeyError or ValueError',
-               'sort_fields(key=f): f receives the field name and sorting is stable, as documented ("same semantics as for sorted")']
+               'sort_fields(key=f): f receives the field name and sorting is stable, as documented ("same semantics as for sorted")',
+               'sort_fields(key=f) where f returns the object it was handed (or a container of it): the object may be a '
+               'plain str or the library\'s own key type; only its ==/hash may fold case, its ordering comparisons '
+               '(< > <= >=) are those of the str spelling, so the demanded order is sorted(plain spellings, key=f).  '
+               'No key function of the workload evaluates ==/!=/hash/in of the handed-over key against another string '
+               '(there a case-folding key type and a plain str legitimately differ); inside tuple/list keys == is only '
+               'ever applied between two different fields of one paragraph, which are unequal under both readings',
+               'sorted(d), sorted(d.keys()), min(d), max(d) order the keys as plain strings (same reading: case is '
+               'folded by ==/hash only); the repository\'s own test_case_preserved asserts this for sorted(d.keys())',
+               'copy routes: an items view / pair list is handed directly to Deb822Dict only - the Deb822 constructor '
+               'reads a non-mapping argument as lines of text, so for a Deb822 the pairs go through dict(...) or '
+               'Deb822Dict(...) first (a plain dict preserves insertion order; CPython >= 3.7)',
+               'views (keys()/values()/items()) are taken AFTER the re-ordering they are compared for; whether a view '
+               'object obtained before a re-ordering follows it is not demanded',
+               'a copy must be of the requested class (d.copy() / type(d)(...) the class of d, Deb822(d) a Deb822, '
+               'Deb822Dict(d) a Deb822Dict); copy.copy()/copy.deepcopy()/pickle are outside the statement and not driven']
 ANCHORS = ['debian.deb822:Deb822Dict.__init__',
            'debian.deb822:Deb822Dict.__setitem__',
            'debian.deb822:Deb822Dict.__getitem__',
@@ -100,23 +152,38 @@ FLAVOUR_MAX_OPS = 12
 ENUM_LEN = {'quick': 3, 'thorough': 4}
 
 FLOORS = {
-    'quick': {'nontrivial': 11500,
-              'monitors': {'M': 110000, 'M.failed-op': 33000, 'M.ghost': 3000, 'K1': 145000, 'K2': 185000},
+    'quick': {'nontrivial': 12900,
+              'monitors': {'M': 124000, 'M.failed-op': 33000, 'M.ghost': 5300, 'K1': 190000, 'K2': 230000,
+                           'M.sortkey': 2200, 'M.copy': 5500, 'M.copy.after-reorder': 2600,
+                           'M.ghost.after-reorder': 2500, 'M.plain-order': 48000},
               'counters': {'reorder:item-variant': 21000, 'reorder:ref-variant': 5500,
                            'fail:reorder-missing-item': 11000, 'fail:reorder-missing-ref': 3800,
                            'fail:self-relative': 2600, 'fail:self-relative-variant': 4800,
-                           'fail:del-missing': 3300, 'fail:get-missing': 300, 'fail:then-more-ops': 20000,
-                           'reorder:only-element': 10000, 'del:head': 2300, 'del:tail': 1900, 'del:only': 2100,
-                           'ok:sort': 4200, 'ok:copy': 1700, 'ok:cycle': 1500}},
-    'thorough': {'nontrivial': 320000,
-                 'monitors': {'M': 4600000, 'M.failed-op': 1400000, 'M.ghost': 200000, 'K1': 5500000, 'K2': 7000000},
+                           'fail:del-missing': 3300, 'fail:get-missing': 270, 'fail:then-more-ops': 20000,
+                           'reorder:only-element': 9900, 'del:head': 2300, 'del:tail': 1900, 'del:only': 2100,
+                           'ok:sort': 6500, 'ok:copy': 5500, 'ok:cycle': 1500,
+                           'sortkey:case-matters': 1450, 'sortkey:moved': 1600, 'moved:sort': 2600,
+                           'plain-order:case-matters': 22000, 'ghost:other-object-re-ordered-afterwards': 2500}},
+    'thorough': {'nontrivial': 370000,
+                 'monitors': {'M': 5100000, 'M.failed-op': 1500000, 'M.ghost': 280000, 'K1': 7000000, 'K2': 8700000,
+                              'M.sortkey': 90000, 'M.copy': 260000, 'M.copy.after-reorder': 98000,
+                              'M.ghost.after-reorder': 130000, 'M.plain-order': 1700000},
                  'counters': {'reorder:item-variant': 1000000, 'reorder:ref-variant': 200000,
                               'fail:reorder-missing-item': 450000, 'fail:reorder-missing-ref': 145000,
                               'fail:self-relative': 170000, 'fail:self-relative-variant': 240000,
-                              'fail:del-missing': 150000, 'fail:get-missing': 19000, 'fail:then-more-ops': 1000000,
+                              'fail:del-missing': 150000, 'fail:get-missing': 19000, 'fail:then-more-ops': 1300000,
                               'reorder:only-element': 500000, 'del:head': 90000, 'del:tail': 80000,
-                              'del:only': 115000, 'ok:sort': 175000, 'ok:copy': 110000, 'ok:cycle': 98000}},
+                              'del:only': 115000, 'ok:sort': 260000, 'ok:copy': 260000, 'ok:cycle': 98000,
+                              'sortkey:case-matters': 52000, 'sortkey:moved': 63000, 'moved:sort': 109000,
+                              'plain-order:case-matters': 800000,
+                              'ghost:other-object-re-ordered-afterwards': 130000}},
 }
+
+# per key function and per copy route (filled in below, once the tables exist): a run that never drives one of
+# them is INCONCLUSIVE, not held
+PER_SORTKEY_FLOOR = {'quick': 140, 'thorough': 6000}
+PER_COPY_FLOOR = {'quick': 240, 'thorough': 11000}
+PER_COPY_AFTER_REORDER_FLOOR = {'quick': 120, 'thorough': 4700}
 
 # ---------------------------------------------------------------------------
 # alphabets: every name comes in several case spellings
@@ -206,6 +273,14 @@ SORT_KEYS.update(STORED_KEY_SORT_KEYS)
 MODEL_SORT_KEYS = dict(SORT_KEYS)          # the SAME functions, applied by the model to plain str spellings
 MODEL_SORT_KEYS['default'] = lambda s: s.lower()
 CYCLES = ('str', 'bytes', 'lines', 'iter', 'fd-bytes', 'fd-text')
+
+
+for _tier in FLOORS:
+    for _k in STORED_KEY_NAMES:
+        FLOORS[_tier]['counters']['sortkey:%s' % _k] = PER_SORTKEY_FLOOR[_tier]
+    for _h in COPY_HOWS:
+        FLOORS[_tier]['counters']['copy:%s' % _h] = PER_COPY_FLOOR[_tier]
+        FLOORS[_tier]['counters']['copy-after-reorder:%s' % _h] = PER_COPY_AFTER_REORDER_FLOOR[_tier]
 
 
 def _weighted(r, weights):
